@@ -13,9 +13,9 @@ var notApplicable = map[string]string{
 
 // notYet lists properties whose harness is not finished; they are not claimed.
 var notYet = map[string]string{
-	"C01": "keepstore harness not finished yet", "C02": "keepstore harness not finished yet", "C03": "keepclient read-path scenario not finished yet",
+	"C01": "keepstore harness not finished yet", "C02": "keepstore harness not finished yet", 
 	"C04": "keepstore harness not finished yet", "C05": "keep-balance harness not finished yet", "C06": "keep-balance harness not finished yet",
-	"C07": "keepstore harness not finished yet", "C12": "rendezvous-order scenario not finished yet", "C14": "dispatcher harness not finished yet",
+	"C07": "keepstore harness not finished yet", "C14": "dispatcher harness not finished yet",
 	"C15": "dispatcher harness not finished yet", "C16": "dispatcher harness not finished yet", "C17": "copier harness not finished yet",
 	"C18": "federation harness not finished yet", "C19": "federation harness not finished yet", "C20": "federation harness not finished yet",
 }
